@@ -1,2 +1,2 @@
 // GENERATED: field types whose own encoders are not under contract in this unit
-ser_opaque!(AnchorDataHash, DNSRecordAorAAAA, DNSRecordSRV, Ed25519Signature, GenesisDelegateHash, GenesisHash, Ipv4, Ipv6, PoolMetadataHash, ProtocolParamUpdate, TransactionHash, TreasuryWithdrawals, URL, VRFKeyHash, Vkey);
+ser_opaque!(AnchorDataHash, Ed25519Signature, GenesisDelegateHash, GenesisHash, Int, Language, PoolMetadataHash, ProtocolParamUpdate, Relay, RewardAddress, TransactionHash, VRFKeyHash, Vkey);
